@@ -81,10 +81,33 @@ def rust_chunk(args):
     return out
 
 
+def py_space(size):
+    """Python patterns judged: the bounded universe plus STACKED pending substitutions (two levels, element and set
+    variables 0/1 as variables and as plugs) on plain, singly and doubly constrained metavariables, bare and under neg"""
+    from . import bridge
+    P = bridge.P
+    S = list(bridge.repo_universe(size, extra_meta=True))
+    x0, x1, X0, X1 = P.EVar(0), P.EVar(1), P.SVar(0), P.SVar(1)
+    heads = [P.MetaVar(0), P.MetaVar(0, e_fresh=(x0,), s_fresh=(X0,)), P.MetaVar(0, s_fresh=(X0,)), P.MetaVar(0, e_fresh=(x0,)),
+             P.MetaVar(0, e_fresh=(x1,), s_fresh=(X1,))]
+    layers = [(P.ESubst, x0), (P.ESubst, x1), (P.SSubst, X0), (P.SSubst, X1)]
+    plugs = [x0, x1, X0, X1]
+    for hd in heads:
+        for c1, v1 in layers:
+            for p1 in plugs:
+                inner = c1(hd, v1, p1)
+                for c2, v2 in layers:
+                    for p2 in plugs:
+                        S.append(c2(inner, v2, p2))
+                        if p2 is x0 and p1 is X0:
+                            S.append(P.neg(c2(inner, v2, p2)))
+    return S
+
+
 def py_chunk(args):
     rows, size = args
     from . import bridge
-    S = list(bridge.repo_universe(size, extra_meta=True))
+    S = py_space(size)
     out = {'evals': 0, 'true': 0, 'instances': 0, 'notation_cases': 0, 'viol': []}
     for i in rows:
         p = S[i]
@@ -162,7 +185,7 @@ def main(argv=None) -> int:
     merge(chk, par.pmap(rust_chunk, par.chunks(mt, n)), 'rust_', agg)
     size = 4
     from . import bridge
-    S = bridge.repo_universe(size, extra_meta=True)
+    S = py_space(size)
     merge(chk, par.pmap(py_chunk, [(ch, size) for ch in par.chunks(list(range(len(S))), n)]), 'py_', agg)
     chk.set('evaluations', agg.get('rust_evals', 0) + agg.get('py_evals', 0))
     chk.set('distinct_nontrivial', agg.get('rust_true', 0) + agg.get('py_true', 0))
